@@ -269,4 +269,11 @@ MUTANTS = [
     {"id": "ddown-fired-on-close-always", "file": "brokerclient.py", "old": "        if self.proto is not None:\n            self.proto.transport.loseConnection()\n        elif",
      "new": "        if self.proto is not None:\n            self.proto.transport.loseConnection()\n            self._dDown.callback(None)\n        elif", "expect": []},
 ]
-TWINS = []
+TWINS = [
+    {"id": "clear-metadata-before-closing-brokers", "file": "client.py",
+     "old": "        brokerclients, self.clients = self.clients, None\n        self._close_brokerclients(brokerclients.values())\n        # clean up other outstanding operations\n        self.reset_all_metadata()",
+     "new": "        self.reset_all_metadata()\n        brokerclients, self.clients = self.clients, None\n        self._close_brokerclients(brokerclients.values())"},
+    {"id": "closing-check-inverted-form", "file": "client.py",
+     "old": "        for host, port in hostports:\n            if self._closing:\n                raise CancelledError(message=\"{} was closed while bootstrapping\".format(self))\n            ep = ",
+     "new": "        for host, port in hostports:\n            if not self._closing:\n                pass\n            else:\n                raise CancelledError(message=\"{} was closed while bootstrapping\".format(self))\n            ep = "},
+]
